@@ -52,7 +52,7 @@ def select(prop, t, sd):
 
 BOUNDS = {'quick': 4, 'thorough': 6}
 
-def run_parser_property(prop, evals=None, N=None, filt=None, level_text=''):
+def run_parser_property(prop, evals=None, N=None, filt=None, level_text='', job=None, extra=None):
     t0 = time.time(); t = tier(); sd = seed()
     harness.build_llw()
     gs = select(prop, t, sd)
@@ -63,10 +63,10 @@ def run_parser_property(prop, evals=None, N=None, filt=None, level_text=''):
     results = []
     workers = int(os.environ.get('VERIF_JOBS', '16'))
     with ProcessPoolExecutor(workers) as ex:
-        futs = [ex.submit(props.grammar_job, j) for j in jobs]
+        futs = [ex.submit(job or props.grammar_job, j) for j in jobs]
         for f in as_completed(futs): results.append(f.result())
     results.sort(key=lambda r: r['name'])
-    return finish(prop, results, N, t, sd, t0)
+    return finish(prop, results, N, t, sd, t0, extra_cov=extra(results) if extra else None)
 
 def finish(prop, results, N, t, sd, t0, extra_cov=None):
     known = load_known()
@@ -142,6 +142,9 @@ def main(argv):
     prop = argv[1]
     if prop in ('C01', 'C02', 'C03', 'C04', 'C06'):
         return run_parser_property(prop)
+    if prop == 'C16':
+        return run_parser_property(prop, job=props.c16_job,
+                                   extra=lambda rs: dict(differential_comparisons=sum(r.get('comparisons', 0) for r in rs), extra_forks_on_trivia_free_side=sum(r.get('extra_forks', 0) for r in rs)))
     print('unknown property', prop); return 2
 
 if __name__ == '__main__':
